@@ -545,4 +545,6 @@ def run(ctx):
         sb = sorted((sorted(str(c) for c in cond_leaves(p)), p.out, str(p.ret) if p.out == 'ret' else '') for p in b.paths)
         ctx.ob('c13/' + r.name[2:] + '/same-as-returning-form', sa == sb, 'sibling: the in-place form has the same decision tree and results as the returning form', r.code, len(sb), len(sa))
     ctx.floor('roots analysed', done, len(roots))
+    ctx.floor('API uses generated (counted at implementation time)', len(roots), 199)
+    ctx.floor('order-type roots whose comparisons-only side condition holds', ctx.counts.get('ord:order-invariant', 0), 70)
     ctx.floor('orderings evaluated', getattr(ctx, 'paths_eval', 0), 15000)
